@@ -354,3 +354,21 @@ impl<T: ?Sized> RefCellCuts<T> {
         loop {}
     }
 }
+
+// ------------------------------------------------------------------------------------------------
+// params readers
+
+/// number of input bytes of the current decoder harness
+pub static mut INPUT_LEN: usize = 0;
+/// `vec![elem; n]`: the allocation oracle (see h_params.rs)
+pub fn from_elem_bounded_stub<T: Clone>(elem: T, n: usize) -> Vec<T> {
+    assert!(n <= unsafe { INPUT_LEN }, "vector sized by a length field that exceeds the input");
+    core::mem::forget(elem);
+    Vec::new()
+}
+pub fn from_elem_empty_stub<T: Clone>(elem: T, _n: usize) -> Vec<T> {
+    core::mem::forget(elem);
+    Vec::new()
+}
+/// `parallelize` (rayon): no-op
+pub fn parallelize_stub<T: Send, F: Fn(&mut [T], usize) + Send + Sync + Clone>(_v: &mut [T], _f: F) {}
